@@ -51,11 +51,39 @@ def register():
         return pretty_call(ctx, Eager, x=value.x)
 
 
+def address_free(t, in_set=False):
+    """the iteration order of every set / frozenset (and hence the print) must be a function of
+    the VALUE, not of memory addresses: no element hashed by identity (comment wrappers,
+    pretty_call objects, nan) inside a set, frozenset or dict key"""
+    k = t[0]
+    if in_set and k in ('commented', 'trailing', 'call'):
+        return False
+    if in_set and k == 'float' and t[1] != t[1]:
+        return False
+    if k in ('commented', 'trailing'):
+        return address_free(t[1], in_set)
+    if k in ('list', 'tuple'):
+        return all(address_free(x, in_set) for x in t[1])
+    if k in ('set', 'frozenset'):
+        return all(address_free(x, True) for x in t[1])
+    if k == 'dict':
+        return all(address_free(a, True) and address_free(b, in_set) for a, b in t[1])
+    if k == 'sub':
+        return address_free(t[2], in_set)
+    if k == 'call':
+        return all(address_free(x, in_set) for x in t[2]) and all(address_free(x, in_set) for _k, x in t[3])
+    return True
+
+
 def build():
     r = Rng('c19-corpus')
     vals = []
-    for i in range(40):
+    i = 0
+    while len(vals) < 40:
+        i += 1
         t = valgen.rand_val(r, r.randint(1, 14), {'sub', 'comment', 'call'} if i % 2 else set())
+        if not address_free(t):
+            continue
         vals.append(('model', t))
     dd = collections.defaultdict(list)
     dd['a'].append(1)
